@@ -6,6 +6,8 @@ import JaqalProofs.Lemmas.LexerSpec
 import JaqalProofs.Lemmas.ParserFuel
 import JaqalProofs.Lemmas.LexerLayout
 import JaqalProofs.Lemmas.NLRuns
+import JaqalProofs.Lemmas.ParserViable
+import JaqalProofs.Lemmas.LexerRegex
 /-!
 # C02 — the parser accepts exactly the Jaqal grammar
 
@@ -166,19 +168,61 @@ theorem C02_error_pos_partial {txt : String} {l c : Nat}
       · exact lexCase le e2 (by injection h)
       · exact key e (e1 ▸ he) (by injection h)
 
-/-- The full statement of the error-position property, NOT proved here: besides `C02_error_pos_partial`, a
-syntax error is reported at the FIRST token at which the input stops being a viable prefix (`Viable`:
-some continuation is a program of the grammar, side conditions aside), and an action error (register size,
-header after body, import) at the first token of the offending statement.
-What is missing is the viability half: a proof that whenever the recursive descent consumes a token, the
-consumed prefix can be completed to a program (a completion has to be constructed for every parser state).
-The agreement of the reported position with the real LALR parser is instead checked by the differential
-harness (`harness/agents/parse_diff.py`, token mutants and character noise). -/
-def C02_error_pos_full : Prop :=
-  ∀ (ts : List PTok) (l i : Nat), parse ts = .error (.syntaxAt l i) →
-    ∃ (before : List PTok) (p : PTok) (after : List PTok), ts = before ++ p :: after ∧ p.line = l ∧ p.index = i ∧
-      (∃ suffix t, Derives (before.map (·.tok) ++ suffix) t) ∧
-      ¬ (∃ suffix t, Derives ((before ++ [p]).map (·.tok) ++ suffix) t)
+/-- **The position of a syntax error.** When the parser reports a syntax error at a token, the tokens
+before it form a viable prefix of the grammar and the prefix including it does not: the error is at the
+FIRST token at which the input stops being a viable prefix. `Viable` (`Spec/Grammar.lean`) refers to the
+context-free part `Syntax` of the grammar — the productions without the two side conditions the actions
+check and with the `import` statement — because that is what decides where a SYNTAX error is: after
+`register q[0] x` the error is the syntax error at `x`, although no continuation of `register q[0]` is a
+program. Every program is a sentence of the context-free part (`Derives.syntax`), so the second half holds
+for the full grammar as well (`C02_error_pos_not_derivable`). -/
+theorem C02_error_pos_full {ts : List PTok} {l i : Nat} (h : parse ts = .error (.syntaxAt l i)) :
+    ∃ (before : List PTok) (p : PTok) (after : List PTok), ts = before ++ p :: after ∧
+      p.line = l ∧ p.index = i ∧
+      Viable (before.map (·.tok)) ∧ ¬ Viable ((before ++ [p]).map (·.tok)) := by
+  obtain ⟨c, la, hcl, he, hv, hn⟩ := parse_anat h (by exact True.intro)
+  cases la with
+  | nil => simp [synErr] at he
+  | cons p after =>
+    simp only [synErr, ParseErr.syntaxAt.injEq] at he
+    refine ⟨c, p, after, hcl, he.1.symm, he.2.symm, hv, ?_⟩
+    rintro ⟨rest, hrest⟩
+    apply hn (p :: rest.map (fun t => ⟨t, 0, 0⟩)) (by simp [SameHead])
+    have : toks (c ++ p :: rest.map (fun t => (⟨t, 0, 0⟩ : PTok))) = (c ++ [p]).map (·.tok) ++ rest := by
+      simp [toks, Function.comp_def]
+    rw [this]; exact hrest
+
+/-- An "unexpected end of input" error: the whole input is a viable prefix, and is not a sentence. -/
+theorem C02_error_eof_full {ts : List PTok} (h : parse ts = .error .syntaxEOF) :
+    Viable (ts.map (·.tok)) ∧ ¬ Syntax (ts.map (·.tok)) := by
+  obtain ⟨c, la, hcl, he, hv, hn⟩ := parse_anat h (by exact True.intro)
+  cases la with
+  | cons p after => simp [synErr] at he
+  | nil =>
+    simp only [List.append_nil] at hcl
+    subst hcl
+    exact ⟨hv, by simpa using hn [] (by simp [SameHead])⟩
+
+/-- No continuation of the input up to and including the reported token is a program. -/
+theorem C02_error_pos_not_derivable {ts : List PTok} {l i : Nat} (h : parse ts = .error (.syntaxAt l i)) :
+    ∃ (before : List PTok) (p : PTok) (after : List PTok), ts = before ++ p :: after ∧
+      p.line = l ∧ p.index = i ∧ ¬ ∃ rest t, Derives ((before ++ [p]).map (·.tok) ++ rest) t := by
+  obtain ⟨before, p, after, h1, h2, h3, -, h5⟩ := C02_error_pos_full h
+  exact ⟨before, p, after, h1, h2, h3, fun ⟨rest, t, hd⟩ => h5 ⟨rest, hd.syntax⟩⟩
+
+/-- non-vacuity: a syntax error in the middle of a token list -/
+example : ∃ l i, parse (lexAll "g a\n{ x ; ] }").1 = .error (.syntaxAt l i) := by
+  cases h : parse (lexAll "g a\n{ x ; ] }").1 with
+  | ok t =>
+    have : (parse (lexAll "g a\n{ x ; ] }").1).toOption.isSome = false := by decide +kernel
+    rw [h] at this; simp [Except.toOption] at this
+  | error e =>
+    have : (match parse (lexAll "g a\n{ x ; ] }").1 with
+      | .error (.syntaxAt _ _) => true | _ => false) = true := by decide +kernel
+    rw [h] at this
+    cases e with
+    | syntaxAt l i => exact ⟨l, i, rfl⟩
+    | _ => simp at this
 
 /-! ## Layout
 
@@ -275,6 +319,41 @@ example : LayoutEq "g a\n h".toList "g a\n \nh".toList :=
         (.tok (r := " h".toList) (nl := 1) (by rfl) (.ws (by rfl) (.refl _))))))
     (Or.inl ⟨[.IDENTIFIER "g", .IDENTIFIER "a"], rfl⟩))
 
+/-! ## The lexer model is the regular expressions of the source
+
+`Generated/LexerRules.lean` is produced by `harness/lexer_extract.py` from the loaded `JaqalLexer`:
+`JaqalLexer._master_re.pattern` parsed with Python's own `re._parser` into the AST of `Spec/Regex.lean`
+(named alternatives in rule order), plus `literals`, `ignore` and the keyword remapping. `Spec/Regex.lean`
+gives that AST the semantics of a backtracking matcher. `Lemmas/LexerRegex.lean` proves, rule by rule
+(`reNL_run`, `reIdent_run`, `reDotIdent_run`, `reNumber_run`, `reInt_run`, `reBinInt_run`, `reComment_run`,
+`reBlock_run`), that the hand-written recognisers of `Model/Lexer.lean` return the remaining input of that
+match, and then: -/
+
+/-- One step of the model's tokenizer is: match the generated rules in order (`lexMatch`), then act on the
+name of the rule that matched and on the matched text (`stepOfMatch`); when no rule matches, a character of
+`literals` is a token. A change of a token rule in `slyparse.py` changes the generated file and breaks
+this proof. -/
+theorem C02_regex (cs : List Char) :
+    step cs = stepOfMatch (Jaqal.Regex.lexMatch Jaqal.LexerRules.rules cs) cs :=
+  step_regex cs
+
+/-- The literal characters, the ignored characters and the keyword table of the model are the generated
+ones. -/
+theorem C02_regex_tables :
+    (∀ c, (literal? c).isSome = Jaqal.LexerRules.literals.contains c) ∧
+    (∀ c, isIgnore c = Jaqal.LexerRules.ignore.contains c) ∧
+    (∀ s, keyword? s = (Jaqal.LexerRules.keywords.lookup s).bind tokOfName) :=
+  ⟨literal_isSome, isIgnore_eq, keyword_eq⟩
+
+/-- non-vacuity: the rules are the eight of the source, and a match that needs backtracking
+(`1.` is INT `1` because NUMBER fails after the dot; `a.` is IDENTIFIER `a` because the dot is given back) -/
+example : Jaqal.LexerRules.rules.map (·.1) =
+    ["NL", "IDENTIFIER", "DOTIDENTIFIER", "NUMBER", "INT", "BININT", "comment", "multiline_comment"] := rfl
+example : Jaqal.Regex.lexMatch Jaqal.LexerRules.rules "1. x".toList = some ("INT", ". x".toList) := by rfl
+example : Jaqal.Regex.lexMatch Jaqal.LexerRules.rules "a. x".toList = some ("IDENTIFIER", ". x".toList) := by rfl
+example : Jaqal.Regex.lexMatch Jaqal.LexerRules.rules "/* a **/ */".toList
+    = some ("multiline_comment", " */".toList) := by rfl
+
 /-! Non-vacuity: a program with a header, a loop over a parallel block, a subcircuit. -/
 
 example : (lex exampleText).toOption.isSome = true := by decide +kernel
@@ -317,5 +396,10 @@ example : isErrAt (parseText "register q[0]") 1 1 = true := by decide +kernel
 #print axioms C02_no_drop
 #print axioms C02_error_pos_partial
 #print axioms C02_layout
+#print axioms C02_regex
+#print axioms C02_regex_tables
+#print axioms C02_error_pos_full
+#print axioms C02_error_eof_full
+#print axioms C02_error_pos_not_derivable
 
 end Jaqal.C02
